@@ -485,6 +485,24 @@ class World(object):
                     out[(addr, addr_no(key))] = (di.maxApduLengthAccepted, di.segmentationSupported)
         return out
 
+    def refcounts(self):
+        """DeviceInfoCache bookkeeping per node: for every record (in order of its station number) the reference count the
+        cache holds and the number of live transactions of that node that hold this very record object"""
+        out = []
+        for addr in sorted(self.nodes):
+            n = self.nodes[addr]
+            if n['cfg'].get('raw') or 'cache' not in n:
+                continue
+            recs = {}
+            for key, di in n['cache'].cache.items():
+                recs[id(di)] = di
+            live = n['smap'].clientTransactions + n['smap'].serverTransactions
+            rows = []
+            for di in recs.values():
+                rows.append((addr, addr_no(di.address), getattr(di, '_ref_count', -1), sum(1 for tr in live if tr.device_info is di)))
+            out.extend(sorted(rows))
+        return tuple(out)
+
     def orphan_timers(self):
         """scheduled timers of transactions that are in no transaction list any more"""
         listed = set()
@@ -552,11 +570,11 @@ class World(object):
                     fn(*args, **kwargs)
                 except Exception as e:
                     self.exn(e, 'deferred', -1)
-            t.ev('state', ms(NOW[0]), self.snapshot(), self.orphan_timers())
+            t.ev('state', ms(NOW[0]), self.snapshot(), self.orphan_timers(), self.refcounts())
         t.steps = steps
         t.end_t = ms(NOW[0])
         t.residue = {'snapshot': self.snapshot(), 'tasks': len(tm.tasks), 'inflight': len(self.inflight),
-                     'delayed': len(self.delayed), 'records': self.records()}
+                     'delayed': len(self.delayed), 'records': self.records(), 'refcounts': self.refcounts()}
         return t
 
     def owner_of(self, task):
@@ -818,6 +836,19 @@ def check_c04(tr):
         if e[0] == 'state' and len(e) > 3 and e[3]:
             f.append({'kind': 'timer-kept-after-removal', 't': e[1], 'timers': e[3]})
             break
+    # the cache's bookkeeping of who uses a peer's record follows the transactions: at every step the reference count of a
+    # record equals the number of live transactions holding it (so the release at the end of a transaction can never fail
+    # and pre-empt the delivery of the outcome), and nothing stays referenced at quiescence
+    for e in tr.events:
+        if e[0] == 'state' and len(e) > 4:
+            bad = [list(x) for x in e[4] if x[2] != x[3]]
+            if bad:
+                f.append({'kind': 'record-refcount-differs-from-live-transactions', 't': e[1], 'records': bad[:4]})
+                break
+    if not tr.livelock and not tr.residue['snapshot']:
+        left = [list(x) for x in tr.residue.get('refcounts', ()) if x[2] != 0]
+        if left:
+            f.append({'kind': 'residue-record-references', 'records': left[:4]})
     # the retry count is respected: an unsegmented request is put on the wire at most retries + 1 times
     sent = {}
     for fr in tr.frames:
@@ -1625,6 +1656,99 @@ def gen_bidirectional(rng):
     return spec
 
 
+def gen_known_overlap(rng):
+    """two or three stations that hold each other's device information records (I-Am data given at start, or an I-Am that
+    arrives while transactions are already open, or both: a second I-Am re-announces the same record) and use them at once:
+    several client transactions towards one known peer overlapping in time (answers delayed, segmented transfers next to
+    one-frame ones), a client transaction towards a peer while a request FROM that peer is being served (both hold the one
+    record of that peer), transactions that end by answer, by error, by time-out (silent peer) and by abort, in every order
+    of completion; later a request on its own.  Records are truthful and every station is segmentedBoth, so that
+    ServerSSM.idle never has to upgrade a record in place (not modelled)."""
+    nn = rng.choice([2, 2, 2, 3])
+    cmax = rng.choice([50, 50, 128])
+    retries = rng.choice([0, 1, 2])
+    mk = lambda a: node_cfg(a, maxApdu=cmax, window=rng.randrange(1, 4), retries=retries, apduTimeout=rng.choice([1000, 3000]),
+                            segTimeout=rng.choice([500, 1500]), appTimeout=rng.choice([3000, 6000]), maxSegs=64)
+    nodes = [mk(a) for a in range(1, nn + 1)]
+    iams = []
+    for n in nodes:
+        for m in nodes:
+            if m is n:
+                continue
+            u = rng.random()
+            if u < 0.7:
+                n['know'][m['addr']] = {'maxApdu': cmax, 'seg': 'segmentedBoth', 'maxSegs': rng.choice([None, 64])}
+            if u > 0.55:
+                # announced (again) while things are going on: the record object is kept, its count must be too
+                iams.append({'t': rng.choice([0, 125, 250, 500, 1000]), 'node': n['addr'], 'peer': m['addr'], 'maxApdu': cmax, 'seg': 'segmentedBoth'})
+    reqs = []
+    oneway = rng.random() < 0.4
+    for i in range(rng.choice([2, 2, 3, 4, 6])):
+        src = 1 if oneway else rng.randrange(1, nn + 1)
+        dst = rng.choice([a for a in range(1, nn + 1) if a != src])
+        kind = rng.choice(['complex', 'complex', 'simple', 'simple', 'error', 'silent', 'abort'])
+        resp = ['complex', rng.choice([3, cmax - 5, cmax + 7, 2 * cmax + 3])] if kind == 'complex' else ['error', 4] if kind == 'error' \
+            else ['abort', 4] if kind == 'abort' else [kind]
+        reqs.append({'t': rng.choice([0, 0, 0, 125, 250]), 'src': src, 'dst': dst, 'len': rng.choice([2, 5, cmax + 5, 2 * cmax + 1]),
+                     'service': 12, 'resp': resp, 'resp_delay': rng.choice([0, 125, 125, 500, 2000])})
+    # afterwards, on its own
+    reqs.append({'t': 60000, 'src': 1, 'dst': 2, 'len': rng.choice([3, cmax + 9]), 'service': 12, 'resp': ['simple'], 'resp_delay': 0})
+    spec = {'nodes': nodes, 'requests': reqs}
+    if iams:
+        spec['iam'] = iams
+    if rng.random() < 0.4:
+        n = len(run_scenario(spec).frames)
+        spec['faults'] = rand_faults(rng, n, rng.randrange(1, 3))
+    return spec
+
+
+def gen_stale_segment(rng):
+    """two or three transfers one after the other between the same two stations (invoke ids allocated by the stack), every
+    answer segmented; one response segment of an EARLIER transfer is duplicated and its copy is late: it arrives while a
+    LATER transfer is being reassembled and is waiting (one of its own segments is delayed) for exactly that sequence number
+    (aligned), or at some other instant of the later transfer (random).  The copy belongs to a finished transaction and must
+    not become part of the later answer."""
+    win = lambda: rng.choice([1, 1, 1, 2, 3])
+    nodes = two_nodes(cmax=50, smax=50, cwin=win(), swin=win(), retries=rng.choice([1, 2, 3]), know=rng.random() < 0.5,
+                      apduTimeout=3000, segTimeout=rng.choice([1000, 1500]), appTimeout=3000)
+    k = rng.randrange(2, 6)
+    same = rng.random() < 0.7
+    reqs = []
+    gap = rng.choice([1000, 2000])
+    for i in range(rng.choice([2, 2, 3])):
+        L = 50 * (k if same else rng.randrange(2, 6)) + rng.randrange(1, 50)
+        reqs.append({'t': i * gap, 'src': 1, 'dst': 2, 'len': rng.choice([3, 3, 70]), 'service': 12, 'resp': ['complex', L],
+                     'resp_delay': rng.choice([0, 0, 125])})
+    spec = {'nodes': nodes, 'requests': reqs}
+    base = run_scenario(spec)
+    segs = {}       # request no -> {seq: frame} (first transmission of each response segment)
+    for (src, dst, inv, ty, no), idxs in transfers(base).items():
+        if ty == 3 and src == 2:
+            for x in idxs:
+                segs.setdefault(no, {}).setdefault(base.frames[x]['hdr']['seq'], base.frames[x])
+    nos = sorted(n for n in segs if n is not None)
+    if len(nos) < 2:
+        return spec
+    j = rng.choice(nos[1:])
+    i = rng.choice([n for n in nos if n < j])
+    common = sorted(set(segs[i]) & set(segs[j]))
+    if not common:
+        return spec
+    q = rng.choice(common)
+    fi, fj = segs[i][q], segs[j][q]
+    faults = {}
+    if rng.random() < 0.75:
+        pause = rng.choice([250, 500])
+        faults[fj['idx']] = [pause]
+        faults[fi['idx']] = [0, fj['t'] - fi['t'] + rng.choice([0, 125, 125, pause - 125])]
+    else:
+        faults[fi['idx']] = [0, max(125, fj['t'] - fi['t'] + rng.choice([-125, 0, 125, 250]))]
+        if rng.random() < 0.5:
+            faults[rng.choice(list(segs[j].values()))['idx']] = [rng.choice([125, 250, 500])]
+    spec['faults'] = faults
+    return spec
+
+
 def gen_same_mac(rng):
     """stations that differ only in the network number (1:5, 2:5), or in the length of the MAC (05 vs 00:05), or are local vs
     remote with equal octets: as clients of one server with equal invoke ids, and as servers of one client that uses the
@@ -1899,8 +2023,8 @@ TRUSTED = ['models coq/theories/Ssm.v (SSM/ClientSSM/ServerSSM/StateMachineAcces
            'apdu.APCI.encode/decode (C07) is used by the harness to put frames on the wire and read their headers back']
 ASSUMPTIONS = ['timeouts are multiples of 125 ms (exact binary fractions of a second), every header field fits one octet',
                'one TaskManager per process, reset between scenarios; link layer replaced by the scripted medium (no NPDU header)',
-               'DeviceInfoCache: get / I-Am update with record aliasing (open transactions see the updated record) are modelled; the reference '
-               'counts are not (the unchanged code never reads them), nor the in-place upgrade of device_info.segmentationSupported in '
+               'DeviceInfoCache: get / I-Am update with record aliasing (open transactions see the updated record) are modelled in the world model; the reference '
+               'counts are modelled in DevCache.v (own correspondence) and checked by the direct predicate on every scenario, not carried by the world model; nor is the in-place upgrade of device_info.segmentationSupported in '
                'ServerSSM.idle (scenarios in which a node is client and server towards the same peer carry no records)',
                'resp_delay -1 / -2 script a server application that parks its answer / gives all parked answers from inside this indication']
 
